@@ -5,6 +5,7 @@ count; the memoizer then bounds the consulted positions (C06 `consult_bound`).
 -/
 import Sqroot.Proofs.Search
 import Sqroot.Proofs.Monitor
+import Sqroot.Proofs.EndToEnd
 namespace Sqroot.Props.C15
 open Sqroot.Model Sqroot.Proofs
 
@@ -29,5 +30,26 @@ theorem consults_bounded (c : MonCfg) (hc : 0 < c.chunk) (programs : List (List 
     s.consulted ≤ s.maxLength ∧
     (s.maxLength = 0 ∨ ∃ i ∈ entered s, s.maxLength ≤ i + c.chunk) :=
   consult_bound c hc programs s h
+
+/-- end to end (v3 `FindFirstN` on any view of a Number, over the memoizer): the search pulls
+exactly the digits up to the end of the n-th match (`cnt = last + |pat|`), never more than the
+window holds, and the demand it places on the digit source grows to at most
+(position of the last pulled digit + 1 + one block) — or stays where earlier reads had left it. -/
+theorem findFirstN_stops_at_answer_end_to_end (c : MemoCfg) (m : Memo) (b v : Val3) (chain : List ViewOp)
+    (pat : List Int) (hp : pat ≠ []) (n bound : Nat) (hn : 0 < n)
+    (hb : IsBase3 b) (hv : applyChain3 b chain = some v)
+    (hfit : Fits c m.src (Spec.winOf (chain.map toSpecOp)) bound)
+    (r : Int) (hr : DemandLe c m r) :
+    let w := Spec.winOf (chain.map toSpecOp)
+    let cells := Spec.windowList m.src.len m.src.digit w bound
+    let T : List Int := cells.map fun x => (x.2 : Int)
+    let s : Int := (max w.lo 0)
+    ∃ m' cnt, findFirstN3 c m v pat n bound
+        = .ok (m', ((Spec.occurrences pat T).take n).map (shiftPos s), cnt) ∧
+      cnt ≤ cells.length ∧
+      (n ≤ (Spec.occurrences pat T).length →
+        ∀ last, ((Spec.occurrences pat T).take n).getLast? = some last → cnt = last + pat.length) ∧
+      DemandLe c m' (max r (s + cnt)) :=
+  Sqroot.Proofs.findFirstN_end_to_end c m b v chain pat hp n bound hn hb hv hfit r hr
 
 end Sqroot.Props.C15
